@@ -8,6 +8,7 @@ ExposeSensor.process_group_write -> process_group_read, ExposeSensor.set.
 
 from __future__ import annotations
 
+import asyncio
 import math
 
 from vlib import dpt_gen as G
@@ -196,6 +197,7 @@ def _call_sites(ctx, classes, fixed=None):
             expose_rw = ExposeSensor(xknx, f"erw{i}", group_address=ga, value_type=cls)  # never set(): answers reads via respond()
             expose_set = ExposeSensor(xknx, f"eset{i}", group_address=ga, value_type=cls)
             read = Telegram(destination_address=ga, direction=TelegramDirection.INCOMING, payload=GroupValueRead(), source_address=_SRC)
+            shared = {}
 
             def take(site, outs):
                 if not xknx.telegrams.empty():
@@ -223,6 +225,15 @@ def _call_sites(ctx, classes, fixed=None):
                     take("ExposeSensor.set", outs)
                     expose_set.process_group_read(read)
                     take("ExposeSensor.set-then-read", outs)
+                    # 4. complex values: the caller's one state dict, refreshed in place, set again
+                    if hasattr(value, "as_dict"):
+                        if shared:
+                            await expose_set.set(shared)  # once more with the previous contents ...
+                            take("ExposeSensor.set(previous dict again)", [])
+                        shared.clear()  # ... then refreshed in place
+                        shared.update(value.as_dict())
+                        await expose_set.set(shared)
+                        take("ExposeSensor.set(dict object reused in place)", outs)
                 except BaseException as exc:  # noqa: BLE001
                     try:  # same refusal as the direct oracle sees, or only at the call site?
                         cls.to_knx(value)
@@ -262,6 +273,158 @@ def _call_sites(ctx, classes, fixed=None):
     loop.finish()
     if loop.exceptions:
         ctx.count("call_site_loop_exceptions_recorded", len(loop.exceptions))
+
+
+class _RecordingQueue(asyncio.Queue):
+    """xknx.telegrams replacement (public attribute): remembers what devices queue for sending."""
+
+    def __init__(self):
+        super().__init__()
+        self.outgoing = []
+
+    def put_nowait(self, item):
+        if item is not None and item.direction is TelegramDirection.OUTGOING:
+            self.outgoing.append(item)
+        super().put_nowait(item)
+
+
+def _table_call_sites(ctx, only=None):
+    """Call sites behind the running queue consumer, with the group-address table as a dimension.
+
+    For every device below and every table mode (no entry / the device's own DPT / a parent class / a child
+    class / an unrelated class of the same payload length) an incoming GroupValueWrite goes through a real
+    XKNX TelegramQueue (table decoding first, then devices.process).  The device's RemoteValue must hold
+    what its OWN transcoder decodes from the payload, and what it re-encodes (RemoteValue.to_knx of the stored
+    value = what respond() sends; for ExposeSensor also the real answer to a GroupValueRead) must decode, with
+    its own transcoder, to that value.  Devices: ExposeSensor for one class per behaviour signature, and the
+    RemoteValueScaling users with non-default ranges (Light brightness 0..255, Cover position/angle normal and
+    inverted, Fan speed).  `only` (replay): (device kind, class name or None, table class name or None, payload).
+    """
+    from xknx.devices import Cover, Fan, Light
+
+    classes = G.concrete_dpt_classes()
+    reps = [c for c in classes if c in G.representatives(classes)]
+    rng = ctx.rng
+    plan = []  # (kind, dpt class or None, mode, table class or None)
+    for j, cls in enumerate(reps):
+        if only is None and not ctx.mine(j):
+            continue
+        rel = G.table_relatives(cls, classes)
+        plan.append(("ExposeSensor", cls, "none", None))
+        for mode in ("own", "parent", "child", "unrelated"):
+            for t in rel[mode]:
+                plan.append(("ExposeSensor", cls, mode, t))
+    if only is not None or ctx.mine(0):
+        from xknx.dpt import DPTAngle, DPTPercentU8, DPTScaling, DPTSignedRelativeValue, DPTValue1ByteUnsigned
+        for kind in ("Light.brightness", "Cover.position", "Cover.position-inverted", "Cover.angle-inverted", "Fan.speed"):
+            plan.append((kind, None, "none", None))
+            for mode, t in (("dpt-5.001", DPTScaling), ("dpt-5.003", DPTAngle), ("dpt-5", DPTValue1ByteUnsigned),
+                            ("dpt-5.004", DPTPercentU8), ("unrelated", DPTSignedRelativeValue)):
+                plan.append((kind, None, mode, t))
+    if only is not None:
+        plan = [item for item in plan if item[0] == only[0] and (item[1].__name__ if item[1] else None) == only[1]
+                and (item[3].__name__ if item[3] else None) == only[2]]
+    loop = new_loop()
+    images = {}
+
+    async def scenario():
+        xknx = XKNX(rate_limit=0)
+        queue = _RecordingQueue()
+        xknx.telegrams = queue
+        entries = []
+        for i, (kind, cls, mode, table_cls) in enumerate(plan):
+            ga = GroupAddress(i + 1)
+            if kind == "ExposeSensor":
+                dev = ExposeSensor(xknx, f"d{i}", group_address=ga, value_type=cls)
+                rv = dev.sensor_value
+            elif kind == "Light.brightness":
+                dev = Light(xknx, f"d{i}", group_address_switch=GroupAddress(40000 + i), group_address_brightness=ga)
+                rv = dev.brightness
+            elif kind.startswith("Cover.position"):
+                dev = Cover(xknx, f"d{i}", group_address_position=ga, invert_position=kind.endswith("inverted"))
+                rv = dev.position_target
+            elif kind.startswith("Cover.angle"):
+                dev = Cover(xknx, f"d{i}", group_address_angle=ga, invert_angle=True)
+                rv = dev.angle
+            else:
+                dev = Fan(xknx, f"d{i}", group_address_speed=ga)
+                rv = dev.speed
+            xknx.devices.async_add(dev)
+            if table_cls is not None:
+                form = G.public_dpt_form(table_cls)
+                if form is None:
+                    ctx.count("table_class_not_configurable")
+                    continue
+                xknx.group_address_dpt.set({ga: form})
+            entries.append((kind, cls, mode, table_cls, ga, dev, rv))
+        await xknx.telegram_queue.start()
+        for kind, cls, mode, table_cls, ga, dev, rv in entries:
+            if only is not None:
+                payloads = [only[3]]
+            elif cls is not None:
+                if cls not in images:
+                    pool = list(G.own_payloads(cls, rng, 200, float_points="decades"))
+                    pool = pool if len(pool) <= 2000 else rng.sample(pool, 2000)
+                    images[cls] = [p for p in pool if G.try_decode(cls, p)[0] == "ok"]
+                image = images[cls]
+                payloads = rng.sample(image, min(len(image), ctx.scale(6, 60)))
+                if not G.is_binary(cls) and cls.payload_length <= 2:  # small raw values: where scaled subtypes differ visibly
+                    payloads += [G.mk(cls, n) for n in (1, 5, 50)]
+            else:
+                payloads = [DPTArray((n,)) for n in sorted({0, 1, 50, 127, 128, 200, 254, 255, *rng.sample(range(256), ctx.scale(6, 60))})]
+            rvname = type(rv).__name__
+            for payload in payloads:
+                try:
+                    own = rv.from_knx(payload)
+                except G.DECLARED_ERRORS:
+                    continue
+                expected = _expected(cls, own) if cls is not None else own
+                witness = {"site": kind, "cls": cls.__name__ if cls else None, "table_mode": mode,
+                           "table_cls": table_cls.__name__ if table_cls else None, "payload": G.describe(payload), "own_decode": repr(own)[:200]}
+                queue.outgoing.clear()
+                queue.put_nowait(Telegram(destination_address=ga, direction=TelegramDirection.INCOMING, payload=GroupValueWrite(payload), source_address=_SRC))
+                if kind == "ExposeSensor":
+                    queue.put_nowait(Telegram(destination_address=ga, direction=TelegramDirection.INCOMING, payload=GroupValueRead(), source_address=_SRC))
+                await queue.join()
+                ctx.ev()
+                ctx.count("table_call_site_cases")
+                ctx.count(f"table_mode_{mode if cls is not None else 'scaling-' + mode}")
+                stored = rv.value
+                if not _same(own, stored):
+                    ctx.violation(
+                        f"{rvname}-stored-value-is-not-own-decode-with-{mode}-table-entry",
+                        {**witness, "stored": repr(stored)[:200]},
+                        f"{kind} ({rvname}, own type {cls.__name__ if cls else 'scaling ' + str((rv.range_from, rv.range_to))}) received {payload!r} through the queue with the "
+                        f"table listing {table_cls.__name__ if table_cls else 'nothing'}: its own transcoder decodes {own!r}, it stored {stored!r}"[:500],
+                    )
+                    continue
+                sent = [("RemoteValue.to_knx(stored)", None)]
+                if kind == "ExposeSensor":
+                    sent += [("answer to GroupValueRead", t.payload.value) for t in queue.outgoing if isinstance(t.payload, GroupValueResponse)]
+                    if len(sent) == 1:
+                        ctx.count("table_call_site_read_not_answered")
+                for site, out_payload in sent:
+                    try:
+                        if out_payload is None:
+                            out_payload = rv.to_knx(stored)
+                        back = rv.from_knx(out_payload)
+                        ok = _same(expected, back)
+                    except BaseException as exc:  # noqa: BLE001
+                        ok, back = False, repr(exc)[:120]
+                    ctx.count("table_call_site_reencodes")
+                    if not ok:
+                        ctx.violation(
+                            f"{rvname}-reencode-changes-value-with-{mode}-table-entry",
+                            {**witness, "via": site, "sent": repr(out_payload)[:120], "value_after": repr(back)[:200]},
+                            f"{kind} with table entry {table_cls.__name__ if table_cls else None}: {payload!r} = {own!r}; {site} gives {out_payload!r} = {back!r}"[:500],
+                        )
+            ctx.distinct(("table", kind, cls.__name__ if cls else None, mode))
+        await xknx.telegram_queue.stop()
+
+    loop.run(scenario(), max_vtime=100000)
+    loop.finish()
+    for exc in loop.exceptions[:3]:
+        ctx.count("table_call_site_loop_exceptions_recorded")
 
 
 def _order_pass(ctx, only_family=None):
@@ -309,7 +472,7 @@ def run(ctx):
         "equality; distinct = (class, magnitude/length bucket of the decoded value); call-site sample: decode-image values through "
         "RemoteValueSensor.process/respond and ExposeSensor write/read/set"
     )
-    ctx.require("roundtrips", "text_replacement_roundtrips", "call_site_roundtrips", "not_accepted", "interleaved_decodes")
+    ctx.require("roundtrips", "text_replacement_roundtrips", "call_site_roundtrips", "not_accepted", "interleaved_decodes", "table_call_site_reencodes", "table_mode_child", "table_mode_parent", "table_mode_scaling-dpt-5.001")
     classes = G.concrete_dpt_classes()
     ctx.extra["dpt_classes"] = len(classes)
     reps = G.representatives(classes)
@@ -337,12 +500,18 @@ def run(ctx):
     if ctx.quick:
         mine = [cls for cls in mine if cls in reps]
     _call_sites(ctx, mine)
+    _table_call_sites(ctx)
     _order_pass(ctx)
 
 
 def replay(ctx, witness):
     cls = G.class_by_name(witness["cls"])
     payload = G.rebuild(witness["payload"])
+    if witness.get("table_mode"):  # table dimension behind the queue consumer
+        _table_call_sites(ctx, only=(witness["site"], witness["cls"], witness["table_cls"], payload))
+        ctx.distinct(("replay", "table"))
+        ctx.distinct(("replay", repr(payload)))
+        return
     if witness.get("family"):  # order dependence: re-run the (deterministic) pass of that family
         _order_pass(ctx, only_family=witness["family"])
     _judge(ctx, cls, payload)
